@@ -1,5 +1,6 @@
 import Driver.Util
 import Driver.RingStream
+import Driver.WireStream
 /-
 hwdriver: reads
     stream <name>
@@ -17,6 +18,8 @@ namespace Driver
 def dispatch (stream : String) : Option (String → String → CaseOut) :=
   match stream with
   | "ring" => some ringCase
+  | "wire" => some wireCase
+  | "hostile" => some hostileCase
   | _ => none
 
 def bump (cov : List (String × Nat)) (t : String) : List (String × Nat) :=
